@@ -58,6 +58,7 @@ for _fid, _cls, _field in (('odml/section.py::BaseSection.sec_cardinality.setter
              ensures=['NF(field(self, "%s"))' % _field],
              raises={'ValueError': 'not acceptable(new_value)'},
              on_raise='Same',
+             modifies=[('self', _field)],
              props=('C09', 'C06'))
 
 # ---- C08: default rules against iff-specs taken from the statement ---------------------------------
